@@ -291,6 +291,46 @@ Fixpoint ok_sets (ops : list fvop) (codes : list Z) : Z :=
   end.
 Definition non_seed (l : list ochange) : Z := zlen (filter (fun o => negb (oc_seed o)) l).
 
+(* "each event carries the write's change time", read off the writer's own log: the k-th successful
+   write made while subscribed is described by the k-th non-seed event (no include, no equivalence);
+   a write with an explicit write time must be stamped with exactly that time (whatever it is: zero
+   time.Time, the epoch, a time before the previous change, the far future), any other write with a
+   reading of the harness clock (1000 + 10 n), later than the previous reading that was delivered *)
+Definition is_clock_reading (t : Z) : bool := (1000 <=? t) && (t mod 10 =? 0).
+Definition fop_time (op : fop) : option Z :=
+  match op with FUpdate _ _ o _ | FAdd _ _ o _ | FDelete _ o => o_time o | _ => None end.
+Fixpoint times_ok (lastclk : Z) (ops : list fop) (codes : list Z) (evs : list ochange) : bool :=
+  match ops, codes with
+  | op :: r, c :: r' =>
+      if is_write op && (c =? 0) then
+        match evs with
+        | e :: evs' =>
+            match fop_time op with
+            | Some t => (oc_time e =? t) && times_ok lastclk r r' evs'
+            | None => is_clock_reading (oc_time e) && (lastclk <? oc_time e) && times_ok (oc_time e) r r' evs'
+            end
+        | [] => true
+        end
+      else times_ok lastclk r r' evs
+  | _, _ => true
+  end.
+Fixpoint vtimes_ok (lastclk : Z) (ops : list fvop) (codes : list Z) (evs : list ovchange) : bool :=
+  match ops, codes with
+  | FVSet _ o :: r, c :: r' =>
+      if c =? 0 then
+        match evs with
+        | e :: evs' =>
+            match o_time o with
+            | Some t => (ov_time e =? t) && vtimes_ok lastclk r r' evs'
+            | None => is_clock_reading (ov_time e) && (lastclk <? ov_time e) && vtimes_ok (ov_time e) r r' evs'
+            end
+        | [] => true
+        end
+      else vtimes_ok lastclk r r' evs
+  | _ :: r, _ :: r' => vtimes_ok lastclk r r' evs
+  | _, _ => true
+  end.
+
 (* C04 on the observed stream.  Without include / equivalence: an exact edit script — seeds first
    (sorted, flagged, exactly the final one last-seed), exactly one event per successful write and
    none for failed ones, per-id old/new chain, and the folded view is the final listing. *)
@@ -317,11 +357,22 @@ Definition C04_ok (c : rcase) : bool :=
        end) &&
       (match r_include ro, e with
        | None, None => (non_seed stream =? ok_writes after codes) &&
-                       (r_updates_only ro || old_chain [] stream)
+                       (r_updates_only ro || old_chain [] stream) &&
+                       times_ok 0 after codes (filter (fun o => negb (oc_seed o)) stream)
+       | None, Some EqAll =>
+           (* what a no-duplicates subscriber misses changes nothing it can see: the chain of old /
+              new values it does see is still unbroken *)
+           (non_seed stream <=? ok_writes after codes) && (r_updates_only ro || old_chain [] stream)
        | _, _ => non_seed stream <=? ok_writes after codes
        end) &&
+      (* with an equivalence no delivered event has equivalent old and new values (as the subscriber
+         sees them, i.e. after the read mask) *)
       (match e with
-       | None => if r_updates_only ro then true else same_map (fold_view (map to_cc stream)) final
+       | Some ev => forallb (fun o => oc_seed o || negb (interp_eqv ev (oc_old o) (oc_new o))) stream
+       | None => true
+       end) &&
+      (match e with
+       | None | Some EqAll => if r_updates_only ro then true else same_map (fold_view (map to_cc stream)) final
        | Some _ => true
        end)
   | CaseCPullID w i e before ro id after stream closed =>
@@ -353,7 +404,13 @@ Definition C04_ok (c : rcase) : bool :=
        | None => true
        end) &&
       (match e with
-       | None => (zlen updates =? ok_sets after codes) &&
+       | None => (zlen updates =? ok_sets after codes) && vtimes_ok 0 after codes updates &&
+                 (* every update carries the value its Set returned, projected by this subscriber's
+                    read mask (also when other subscribers with other masks listen) *)
+                 list_eqb fmsg_eqb (map ov_value updates)
+                   (flat_map (fun r => match r with
+                                       | Some v => [match r_mask ro with Some k => fr_filter k v | None => v end]
+                                       | None => [] end) results) &&
                  (* the last delivered value is the final value *)
                  match rev stream with
                  | o :: _ => if 0 <? ok_sets after codes then ofm_eqb (Some (ov_value o)) final else true
